@@ -1,51 +1,11 @@
 //! pkverif — property-based testing / fuzzing harness for 1Password/passkey-rs.
 //! usage: pkverif <Cxx> <quick|thorough> [--replay <file>]
 
-#![allow(clippy::type_complexity)]
-#![allow(dead_code)]
-
-mod alloc;
-mod cer;
-mod ceremony;
-mod core;
-mod hostile;
-mod model;
-mod props;
-mod rt;
-
-use std::cell::RefCell;
-
-use crate::core::{Ctx, Tier};
+use pkverif::core::{self, Ctx, Tier};
+use pkverif::{alloc, install_panic_hook, props};
 
 #[global_allocator]
 static GLOBAL: alloc::Counting = alloc::Counting;
-
-thread_local! {
-    pub static LAST_PANIC: RefCell<String> = const { RefCell::new(String::new()) };
-}
-
-pub fn last_panic() -> String {
-    LAST_PANIC.with(|p| p.borrow().clone())
-}
-
-fn install_panic_hook() {
-    let verbose = std::env::var("VERIF_VERBOSE").is_ok();
-    std::panic::set_hook(Box::new(move |info| {
-        let msg = if let Some(s) = info.payload().downcast_ref::<&str>() {
-            s.to_string()
-        } else if let Some(s) = info.payload().downcast_ref::<String>() {
-            s.clone()
-        } else {
-            "<non-string panic>".to_string()
-        };
-        let loc = info.location().map(|l| format!("{}:{}", l.file(), l.line())).unwrap_or_default();
-        let full = format!("{msg} @ {loc}");
-        if verbose {
-            eprintln!("panic: {full}");
-        }
-        LAST_PANIC.with(|p| *p.borrow_mut() = full);
-    }));
-}
 
 fn usage() -> ! {
     eprintln!("usage: pkverif <C01..C19> <quick|thorough> [--replay <file>]");
@@ -58,6 +18,16 @@ fn main() {
         usage();
     }
     install_panic_hook();
+    if args[1] == "__corpus" {
+        let n = args.get(3).and_then(|s| s.parse().ok()).unwrap_or(24);
+        match pkverif::fuzzapi::write_corpus(std::path::Path::new(&args[2]), n) {
+            Ok(()) => std::process::exit(0),
+            Err(e) => {
+                eprintln!("{e}");
+                std::process::exit(2);
+            }
+        }
+    }
     if args[1] == "__worker" {
         std::process::exit(props::worker(&args[2..]));
     }
@@ -80,18 +50,33 @@ fn main() {
 
     if let Some(pos) = args.iter().position(|a| a == "--replay") {
         let Some(path) = args.get(pos + 1) else { usage() };
-        let text = match std::fs::read_to_string(path) {
-            Ok(t) => t,
+        let text = match std::fs::read(path) {
+            Ok(t) => String::from_utf8_lossy(&t).to_string(),
             Err(e) => {
                 eprintln!("cannot read {path}: {e}");
                 std::process::exit(2);
             }
         };
-        let v: serde_json::Value = match serde_json::from_str(&text) {
-            Ok(v) => v,
-            Err(e) => {
-                eprintln!("bad replay file: {e}");
-                std::process::exit(2);
+        let v: serde_json::Value = match serde_json::from_str::<serde_json::Value>(&text) {
+            Ok(v) if v.get("case").is_some() => v,
+            _ => {
+                // not one of our replay files: a raw fuzz artifact for one of this property's fuzz targets
+                let bytes = std::fs::read(path).unwrap_or_default();
+                let targets: Vec<&str> = pkverif::fuzzapi::targets_for(id).iter().copied().filter(|t| !pkverif::fuzzapi::TARGETS.iter().any(|o| path.contains(&format!("/{o}/"))) || path.contains(&format!("/{t}/"))).collect();
+                if targets.is_empty() {
+                    eprintln!("bad replay file for {id}");
+                    std::process::exit(2);
+                }
+                for t in targets {
+                    let r = std::panic::catch_unwind(|| pkverif::fuzzapi::run_target(t, &bytes));
+                    if r.is_err() {
+                        println!("VIOLATION property={id} replay={path}");
+                        println!("  stage=fuzz:{t} {}", pkverif::last_panic());
+                        std::process::exit(1);
+                    }
+                }
+                println!("REPLAY property={id} fuzz artifact: holds");
+                std::process::exit(0);
             }
         };
         ctx.strict = true;
